@@ -27,6 +27,11 @@ def gen_chain(rng, depth):
         for k in rng.sample(["required", "minProperties", "maxProperties", "patternProperties", "additionalProperties", "propertyNames",
                              "dependencies", "default", "const", "enum", "description"], rng.randint(0, 4)):
             kw[k] = new_value(rng, k)
+        if i > 0 and rng.random() < 0.3:
+            # override an inherited keyword by the value the constructor would default to (re-open a closed parent)
+            inherited_kw = dslgen.merged_class(doc, "C%d" % (i - 1))["kw"]
+            if inherited_kw.get("additionalProperties", True) is not True:
+                kw["additionalProperties"] = True
         if "default" in kw and not isinstance(kw["default"], dict):
             kw["default"] = rng.choice([{}, {"a": 1}, {"a": "x", "b": 2}])
         props = {}
@@ -134,6 +139,15 @@ def run(tier, seed, replay=None):
                         inst = child(copy.deepcopy(v))
                         if not all(isinstance(inst, live[a2]) for a2 in anc) or not isinstance(inst, Object):
                             bad = bad or "an instance of %s is not an instance of its parent(s)" % name
+                        # ... and is taken as one wherever the parent is the schema: passed through untouched
+                        from statham.schema.elements import Array
+                        for a2 in anc:
+                            try:
+                                same = live[a2](inst) is inst and Array(live[a2])([inst])[0] is inst
+                            except BaseException as exc:  # noqa
+                                same = "raised %s" % type(exc).__name__
+                            if same is not True:
+                                bad = bad or "an instance of %s given where its parent %s is the schema is not passed through (%s)" % (name, a2, same)
                 # ---- reconfigure the child: the ancestors must not notice -----------------------------
                 for _ in range(3):
                     r = rng.random()
